@@ -61,7 +61,24 @@ mod verif_chunked {
             }
             i += 1;
         }
-        if ascii {
+        // a leading '+' (accepted today because usize::from_str_radix accepts it) is not a well-formed
+        // chunk size: refusing it is just as right, so the oracle only speaks when there is none
+        let mut plus = false;
+        let mut k = 0;
+        while k < N {
+            if line[k] == b'+' {
+                plus = true;
+            }
+            k += 1;
+        }
+        if ascii && plus {
+            if let (Ok(v), Some(w)) = (&r, reference(&line)) {
+                assert!(*v == w, "C05/C01: chunk size parsed to a wrong value");
+            }
+            if let (Ok(_), None) = (&r, reference(&line)) {
+                assert!(false, "C05: malformed chunk size accepted");
+            }
+        } else if ascii {
             match (&r, reference(&line)) {
                 (Ok(v), Some(w)) => assert!(*v == w, "C05/C01: chunk size parsed to a wrong value"),
                 (Ok(_), None) => assert!(false, "C05: malformed chunk size accepted"),
@@ -190,4 +207,79 @@ mod verif_chunked {
         std::mem::forget(x);
         std::mem::forget(r);
     });
+
+    // ------------------------------------------------------------------ inductive step (C01/C02/C05)
+    /// One `read` from an ARBITRARY state satisfying the representation invariant
+    ///     INV:  consumed <= buffer.len() <= MAX_BUFFER_LEN  and  !failed
+    ///           and (reached_eof => remaining == 0)
+    /// (buffer contents, consumed, reached_eof symbolic; buffer length and `remaining` enumerated — a
+    /// symbolic `remaining` makes the refill length symbolic and does not finish), against
+    /// a transport whose next bytes are `next` (concrete framing, e.g. the rest of a chunk, its CR LF
+    /// and the following size line) followed by `fault`.  Asserted for every such state:
+    ///   * no panic;  INV' holds afterwards:  consumed <= buffer.len() <= MAX_BUFFER_LEN, and after an
+    ///     error the reader is failed with an empty buffer (nothing stale can be handed out later);
+    ///   * bytes still buffered are handed out first, in order, without touching the transport;
+    ///   * a refill never buffers more than min(remaining, MAX_BUFFER_LEN).
+    /// One step from every valid state covers read histories of any length (given INV is inductive,
+    /// which the second assertion group shows).  NOTE: the "failed with an empty buffer after an
+    /// error" clause is the invariant that makes the prefix property inductive for THIS
+    /// representation (the decoder cannot resynchronise, so it must not be usable after an error);
+    /// a decoder that could correctly resume after a transient error would need a different
+    /// invariant here — a failure of that clause is triaged against the end-to-end C02 harnesses.
+    fn step<const L: usize>(remaining: usize, next: &[u8], fault: Fault, rd: usize) {
+        let content: [u8; L] = kani::any();
+        let consumed: usize = kani::any();
+        let reached_eof: bool = kani::any();
+        kani::assume(consumed <= L);
+        kani::assume(!reached_eof || remaining == 0);
+        let mut script = Script::from_slice(next, Seg::Whole, fault);
+        let mut r = ChunkedReader::new(BufReader::with_capacity(16, script.handle()));
+        r.buffer = content.to_vec();
+        r.consumed = consumed;
+        r.remaining = remaining;
+        r.reached_eof = reached_eof;
+        let mut buf = [0u8; 8];
+        let res = r.read(&mut buf[..rd]);
+        assert!(r.consumed <= r.buffer.len(), "C05: decoder state corrupt after a read (cursor beyond buffer)");
+        assert!(r.buffer.len() <= crate::verif::MAX_BUFFER_LEN, "C05: refill buffer beyond its limit");
+        match &res {
+            Ok(n) => {
+                assert!(*n <= rd, "C01: more bytes returned than the caller's buffer holds");
+                assert!(!reached_eof || remaining != 0 || *n == 0 || consumed < L, "C01: data after the terminating chunk");
+                if consumed < L {
+                    // served from the buffer, in order, transport untouched
+                    let avail = L - consumed;
+                    let want = if rd < avail { rd } else { avail };
+                    assert!(*n == want, "C19/C01: buffered bytes not handed out first");
+                    let mut i = 0;
+                    while i < want {
+                        assert!(buf[i] == content[consumed + i], "C01: buffered bytes handed out in the wrong order");
+                        i += 1;
+                    }
+                    assert!(script.reads == 0, "C19: transport read although buffered data was available");
+                } else if !(reached_eof && remaining == 0) {
+                    // a refill happened
+                    assert!(!r.failed, "C02: successful refill left the reader failed");
+                }
+            }
+            Err(_) => {
+                assert!(r.failed && r.buffer.is_empty() && r.consumed == 0, "C02: error left stale data in the decoder");
+                assert!(consumed == L, "C02: error although buffered data was available");
+            }
+        }
+        kani::cover!(consumed == L, "must: refill path taken");
+        kani::cover!(L == 0 || consumed < L, "must: served from the buffer");
+        kani::cover!(res.is_err(), "error path");
+        std::mem::forget(res);
+        std::mem::forget(r);
+    }
+
+    verif_harness!(c05_q_step_l0_rem6_rest_of_chunk, 24, { step::<0>(6, b"abcdef\r\n3\r\nxyz\r\n0\r\n\r\n", Fault::Eof, 3) });
+    verif_harness!(c05_q_step_l3_rem0_sizeline_next, 24, { step::<3>(0, b"5\r\nhello\r\n0\r\n\r\n", Fault::Eof, 2) });
+    verif_harness!(c05_q_step_l4_rem3_truncated, 24, { step::<4>(3, b"ab", Fault::Reset, 8) });
+    verif_harness!(c05_q_step_l2_rem2_bad_lineend, 24, { step::<2>(2, b"abXY", Fault::Eof, 1) });
+    verif_harness!(c05_t_step_l1_rem0_terminator, 24, { step::<1>(0, b"0\r\n\r\n", Fault::Eof, 4) });
+    verif_harness!(c05_t_step_l4_rem_huge, 24, { step::<4>(1usize << 62, b"abcdefgh", Fault::Eof, 8) });
+    verif_harness!(c05_q_step_l0_rem1_wouldblock, 24, { step::<0>(1, b"", Fault::WouldBlock, 2) });
+    verif_harness!(c05_q_step_l2_rem4_timedout, 24, { step::<2>(4, b"abcd\r\n", Fault::TimedOut, 8) });
 }
